@@ -158,7 +158,7 @@ class Terminal(object):
             self.eof_delivered = True
             self.events.append(["r", "e", ""])
             return ""
-        prompt = out.rsplit("\n", 1)[-1]
+        prompt = out  # everything written since the previous read (parse_prompt looks at its last line first)
         if self.on_read is not None:
             self.on_read(self, prompt)
         kind, text = self.agent.answer(self.reads - 1, prompt)
@@ -265,18 +265,34 @@ class _Installed(object):
 # --------------------------------------------------------------------------------------------
 
 
-def parse_prompt(prompt):
-    """Stated format assumption (DESIGN 6.8): the text before a read is '<label>: v1/v2/... '.
+def parse_prompt(prompt, names=None):
+    """Which question is being asked. Stated format assumption (DESIGN 6.8): the text before a read
+    is '<label>: v1/v2/... '. When `names` (the tree's display names) is given and the strict shape
+    does not apply or yields an unknown label -- a reworded or re-punctuated prompt -- the question
+    is the longest display name that occurs in the prompt (last occurrence wins), so that a cosmetic
+    change of the prompt does not blind the simulated user.
     Returns (label, [offered values]) or (None, [])."""
-    p = prompt.strip()
-    if ": " not in p:
-        return None, []
-    # (the terminal hands over only the text written since the previous read, so a re-asked
-    # prompt is seen on its own although no newline was echoed in between)
-    label, vals = p.rsplit(": ", 1)
-    offered = vals.strip().split("/")
-    if not label or not offered or any((not v) or (" " in v) for v in offered):
-        return None, []
+    whole = prompt
+    p = prompt.rsplit("\n", 1)[-1].strip()  # the strict shape applies to the last line
+    label, offered = None, []
+    if ": " in p:
+        # (the terminal hands over only the text written since the previous read, so a re-asked
+        # prompt is seen on its own although no newline was echoed in between)
+        lab, vals = p.rsplit(": ", 1)
+        off = vals.strip().split("/")
+        if lab and off and not any((not v) or (" " in v) for v in off):
+            label, offered = lab, off
+    if names is not None and (label is None or label not in names):
+        best = None
+        for name in names:
+            pos = whole.rfind(name)
+            if pos >= 0:
+                # prefer the later occurrence, then the longer name ("Modified Scope" over "Scope")
+                key = (pos + len(name), len(name))
+                if best is None or key > best[0]:
+                    best = (key, name)
+        if best is not None:
+            return best[1], offered
     return label, offered
 
 
@@ -356,7 +372,6 @@ def run_cli(argv, agent, max_reads=500, on_read=None):
     term = Terminal(agent, max_reads)
     term.on_read = on_read
     res = {"exit": None, "exc": None, "aborted": False, "builder_calls": []}
-    real_ask = cc.ask_interactively
 
     def recording_ask(*args, **kwargs):
         call = {"args": canon(list(args)), "kwargs": canon(kwargs), "returned": None}
@@ -374,7 +389,18 @@ def run_cli(argv, agent, max_reads=500, on_read=None):
     full_argv = ["cvss_calculator"] + list(argv)
     if PY2:
         full_argv = [a.encode("utf-8") for a in full_argv]
-    cc.ask_interactively = recording_ask
+    # seam S4: every name through which the CLI can reach the builder -- the attribute(s) of the
+    # calculator module bound to the function (whatever they are called), and the function's home
+    import cvss as _pkg
+    from cvss import interactive as _inter
+
+    patched = []
+    real_ask = _inter.ask_interactively
+    for mod in (cc, _inter, _pkg):
+        for name, val in list(vars(mod).items()):
+            if val is real_ask:
+                patched.append((mod, name))
+                setattr(mod, name, recording_ask)
     try:
         with _Installed(term, full_argv):
             try:
@@ -394,7 +420,8 @@ def run_cli(argv, agent, max_reads=500, on_read=None):
                 res["exc"] = exc_info(e)
                 res["exit"] = 1
     finally:
-        cc.ask_interactively = real_ask
+        for mod, name in patched:
+            setattr(mod, name, real_ask)
     res["events"] = term.events
     res["stdout"] = term.stdout_text()
     res["stderr"] = term.stderr_text()
